@@ -1,0 +1,124 @@
+//go:build verif
+
+// Package verifhook provides named observation points for external verification
+// machinery. This file is only compiled with the 'verif' build tag.
+//
+// A point can be observed and acted on in three ways:
+//
+//   - VERIF_TRACE=<file>: every point hit is appended to the file as one line
+//     "<seq>\t<name>\t<arg>\t<arg>...\n" with a single write(2).
+//   - VERIF_FAULTS="crash@<name>#<n>;delay@<name>=<microseconds>;...": the
+//     process kills itself with SIGKILL at the n-th hit (1 based) of a point, or
+//     sleeps at every hit of a point.
+//   - SetHandler: an in-process callback invoked synchronously at every point
+//     (used by harnesses that link the packages directly).
+package verifhook
+
+import (
+	"fmt"
+	"os"
+	"strconv"
+	"strings"
+	"sync"
+	"sync/atomic"
+	"syscall"
+	"time"
+)
+
+// Handler is an in-process observer of points.
+type Handler func(name string, args []string)
+
+var (
+	mu      sync.Mutex
+	trace   *os.File
+	crashAt = map[string]int{}           // name -> hit number at which to die
+	delays  = map[string]time.Duration{} // name -> sleep at every hit
+	hits    = map[string]int{}           // name -> hits so far (only for names with a crash plan)
+	seq     atomic.Int64
+	handler atomic.Pointer[Handler]
+	active  atomic.Bool // whether the environment asked for anything at all
+)
+
+func init() {
+	if path := os.Getenv("VERIF_TRACE"); path != "" {
+		f, err := os.OpenFile(path, os.O_APPEND|os.O_CREATE|os.O_WRONLY, 0o644)
+		if err == nil {
+			trace = f
+			active.Store(true)
+		}
+	}
+	for _, item := range strings.Split(os.Getenv("VERIF_FAULTS"), ";") {
+		item = strings.TrimSpace(item)
+		switch {
+		case strings.HasPrefix(item, "crash@"):
+			name, n, ok := strings.Cut(strings.TrimPrefix(item, "crash@"), "#")
+			count, err := strconv.Atoi(n)
+			if ok && err == nil && count > 0 {
+				crashAt[name] = count
+				active.Store(true)
+			}
+		case strings.HasPrefix(item, "delay@"):
+			name, us, ok := strings.Cut(strings.TrimPrefix(item, "delay@"), "=")
+			micros, err := strconv.Atoi(us)
+			if ok && err == nil && micros > 0 {
+				delays[name] = time.Duration(micros) * time.Microsecond
+				active.Store(true)
+			}
+		}
+	}
+}
+
+// SetHandler installs (or with nil removes) the in-process observer.
+func SetHandler(h Handler) {
+	if h == nil {
+		handler.Store(nil)
+		return
+	}
+	handler.Store(&h)
+}
+
+// Point marks a named point in the program.
+func Point(name string, args ...any) {
+	h := handler.Load()
+	if h == nil && !active.Load() {
+		return
+	}
+	strs := make([]string, len(args))
+	for i, a := range args {
+		strs[i] = fmt.Sprint(a)
+	}
+	if h != nil {
+		(*h)(name, strs)
+	}
+	if !active.Load() {
+		return
+	}
+	n := seq.Add(1)
+	if trace != nil {
+		line := strconv.FormatInt(n, 10) + "\t" + name
+		for _, s := range strs {
+			line += "\t" + strings.NewReplacer("\t", " ", "\n", " ").Replace(s)
+		}
+		trace.WriteString(line + "\n") //nolint: errcheck
+	}
+	if d, ok := delays[name]; ok {
+		time.Sleep(d)
+	}
+	if len(crashAt) != 0 {
+		if target, ok := crashAt["*"]; ok && int64(target) == n {
+			// "*" counts hits of all points together
+			syscall.Kill(os.Getpid(), syscall.SIGKILL) //nolint: errcheck
+			select {}
+		}
+		mu.Lock()
+		target, ok := crashAt[name]
+		if ok {
+			hits[name]++
+			if hits[name] == target {
+				syscall.Kill(os.Getpid(), syscall.SIGKILL) //nolint: errcheck
+				select {}                                  // never return: the signal is on its way
+			}
+		}
+		mu.Unlock()
+	}
+}
